@@ -228,8 +228,17 @@ def reviewed(m, L, s):
         # closures and the function they are written in are one review unit (a closure turned into a loop, or the
         # reverse, keeps the site under the same entry)
         return x.split('::{closure')[0]
+    def same_unit(entry_fn):
+        # the site lies in the reviewed function, or in a helper extracted from it (every caller inside that function)
+        if owner(fn).endswith(owner(entry_fn)):
+            return True
+        roots = [x for x in m.prog.user_bodies() if x.id.endswith(owner(entry_fn)) and x.id == owner(x.id)]
+        for rb_ in roots:
+            if any(h.id == b.id or owner(h.id) == owner(fn) for h in m.prog.private_helpers(rb_)):
+                return True
+        return False
     for e in reviewed_table():
-        if owner(fn).endswith(owner(e['fn'])) and s.what == e['what'] and prod == e.get('producer', prod):
+        if s.what == e['what'] and prod == e.get('producer', prod) and same_unit(e['fn']):
             cond = e.get('side_condition')
             if cond:
                 ok, why = SIDE_CONDITIONS[cond](m)
